@@ -174,7 +174,7 @@ template <class A> void carrier_prop(vf::Ctx& c, int archId) {
 	const auto ps = positions<A>(); const int pos = ps[c.src.draw(ps.size())];
 	size_t si = c.src.draw(NTYPES), ti = c.src.draw(NTYPES);
 	if (pos == Key) { if (si == 0) si = 1 + c.src.draw(NTYPES - 1); if (ti == 0) ti = 1 + c.src.draw(NTYPES - 1); }
-	Cfg cfg; cfg.stream = c.src.coin(); cfg.streamKind = cfg.stream ? static_cast<int>(c.src.draw(2)) : 0; cfg.chunk = 1 + c.src.draw(9); gen_policies(c.src, cfg.opt);
+	Cfg cfg; cfg.stream = c.src.coin(); cfg.streamKind = cfg.stream ? gen_stream_kind(c.src, archId == MSGPACK) : 0; cfg.chunk = 1 + c.src.draw(9); gen_policies(c.src, cfg.opt);
 	const bool textual = archId == XML || archId == CSV || (archId == JSON && pos == Key);
 	Num src; std::string srcDesc, bytes; bool saved = false;
 	with_type(si, [&](auto st) { using S = typename decltype(st)::type; const S v = gen_value<S>(c.src);
@@ -258,7 +258,7 @@ VF_PROPERTY(carrier_csv, 2, "same through a CSV cell (two rows)") { carrier_prop
 VF_PROPERTY(enum_as_bin_msgpack, 1, "same through MessagePack") { switch (c.src.draw(3)) { case 0: enum_as_bin_case<MsgPackArchive, E8>(c, MSGPACK); break; case 1: enum_as_bin_case<MsgPackArchive, E16>(c, MSGPACK); break; default: enum_as_bin_case<MsgPackArchive, E64>(c, MSGPACK); } }
 VF_PROPERTY(carrier_msgpack_any_format, 4, "integer / float / bool encoded by the independent MsgPack encoder in ANY legal format (fixint, uint8..64, int8..64, float32/64 when exact) at array-element and member position, loaded into each of 11 types; non-trivial = non-minimal format or not representable")
 {
-	const size_t ti = c.src.draw(NTYPES); Cfg cfg; cfg.stream = c.src.coin(); cfg.streamKind = cfg.stream ? static_cast<int>(c.src.draw(2)) : 0; cfg.chunk = 1 + c.src.draw(9); gen_policies(c.src, cfg.opt);
+	const size_t ti = c.src.draw(NTYPES); Cfg cfg; cfg.stream = c.src.coin(); cfg.streamKind = cfg.stream ? gen_stream_kind(c.src, true) : 0; cfg.chunk = 1 + c.src.draw(9); gen_policies(c.src, cfg.opt);
 	const int pos = c.src.coin() ? Elem : Mem;
 	// source as a mathematical value
 	Num src; refmp::Val val;
@@ -279,6 +279,39 @@ VF_PROPERTY(carrier_msgpack_any_format, 4, "integer / float / bool encoded by th
 	});
 }
 
+#endif
+
+#if C04_PART == 0 || C04_PART == 5
+// numbers as other producers spell them in text documents: exponent notation with 1..2 exponent digits, either sign, e / E
+namespace {
+template <class T> struct FtRow { T v = static_cast<T>(123); int w = -1; template <class Ar> void Serialize(Ar& ar) { ar << KeyValue("v", v) << KeyValue("w", w); } };
+template <class T> void foreign_text_case(vf::Ctx& c, const std::string& text, int archId) {
+	Cfg cfg; cfg.stream = c.src.coin(); cfg.streamKind = cfg.stream ? gen_stream_kind(c.src, false) : 0; cfg.chunk = 1 + c.src.draw(9); gen_policies(c.src, cfg.opt);
+	const long double x = strtold(text.c_str(), nullptr); const bool integral = x == std::floor(x);
+	bool fits = false; T want{};
+	if constexpr (std::is_same_v<T, bool>) { fits = x == 0 || x == 1; want = x == 1; } else { fits = integral && x >= static_cast<long double>(std::numeric_limits<T>::min()) && x <= static_cast<long double>(std::numeric_limits<T>::max()); if (fits) want = static_cast<T>(x); }
+	FtRow<T> row; Outcome o; bool rowsOk = true;
+	if (archId == CSV) { std::vector<FtRow<T>> rows; o = load<CsvArchive>(rows, "v,w\r\n" + text + ",5\r\n", cfg); if (o.ok()) { rowsOk = rows.size() == 1; if (rowsOk) row = rows[0]; } }
+	else o = load<XmlArchive>(row, "<root><v>" + text + "</v><w>5</w></root>", cfg);
+	const bool anySkip = cfg.opt.overflowNumberPolicy == OverflowNumberPolicy::Skip || cfg.opt.mismatchedTypesPolicy == MismatchedTypesPolicy::Skip;
+	const std::string d = vf::cat(arch_name(archId), " text '", text, "' into ", tname<T>(), " [", cfg.str(), "] => ", o.str(), " v=", static_cast<long long>(row.v), " w=", row.w);
+	c.nontrivial = true; c.describe(vf::cat("foreign text ", arch_name(archId), " '", text, "' ", tname<T>(), " ", cfg.str()));
+	if (o.k == Outcome::StdEx || o.k == Outcome::Unknown) c.fail("a number spelled in exponent notation ends in an exception outside the serialization hierarchy", d);
+	if (!o.ok()) return;   // reported per policy
+	if (!rowsOk || row.w != 5) c.fail("the neighbour of a number spelled in exponent notation was not loaded", d);
+	const bool untouched = row.v == static_cast<T>(123);
+	if (untouched) { if (!anySkip && !(fits && want == static_cast<T>(123))) c.fail("a number that is not loaded is not reported although both policies are ThrowError", d); return; }
+	if (!fits || row.v != want) c.fail("WRONG VALUE: the text of a number was loaded as another number (truncated literal)", d);
+}
+}
+VF_PROPERTY(foreign_text_exponent_spelling, 2, "CSV cells and XML element text holding numbers in exponent notation as other producers write them (1..2 mantissa digits, e / E, optional sign, 1..2 exponent digits: 7e2, 5e-1, 1E+9, 12e03) loaded into bool / uint8 / int32 / int64 under the 4 policy combinations from memory and streams: the exact value or a report per policy (exception, or untouched target under Skip), never the value of a prefix of the literal; non-trivial = always")
+{
+	std::string text; if (c.src.chance(1, 6)) text.push_back('-'); text.push_back(static_cast<char>('1' + c.src.draw(9))); if (c.src.coin()) text.push_back(static_cast<char>('0' + c.src.draw(10)));
+	text.push_back(c.src.coin() ? 'e' : 'E'); switch (c.src.draw(3)) { case 0: break; case 1: text.push_back('+'); break; default: text.push_back('-'); break; }
+	text.push_back(static_cast<char>('0' + c.src.draw(10))); if (c.src.chance(1, 3)) text.push_back(static_cast<char>('0' + c.src.draw(10)));
+	const int archId = c.src.coin() ? CSV : XML;
+	switch (c.src.draw(4)) { case 0: foreign_text_case<bool>(c, text, archId); break; case 1: foreign_text_case<uint8_t>(c, text, archId); break; case 2: foreign_text_case<int32_t>(c, text, archId); break; default: foreign_text_case<int64_t>(c, text, archId); break; }
+}
 #endif
 
 int main(int argc, char** argv) {
